@@ -65,6 +65,8 @@ type GridCell struct {
 const (
 	HdrTok = 901
 	FtrTok = 902
+	// DelTok is the token of deleted text (tracked changes): not part of the body.
+	DelTok = 903
 	// SymBase is the code point of the symbol standing for token 0.
 	SymBase = 0x4E00
 )
